@@ -142,7 +142,7 @@ class GR:
 
     def config(self, fl=None):
         r = self.r
-        return "iso=%d;tr=%s;fm=%s;fl=%s;loc=%s" % (r.randrange(2), r.choice(["none", "none", "upper"]),
+        return "iso=%d;tr=%s;fm=%s;fl=%s;loc=%s" % (r.randrange(2), r.choice(["none", "none", "upper", "pseudo"]),
                                                     r.choice(["none", "none", "numbr", "strwrap"]),
                                                     fl or r.choice(["st", "st", "conc"]),
                                                     r.choice(["en", "en", "en-US", "pl", "ru", "ar", "fr", "cs", "lt", "ja", "xx"]))
